@@ -250,9 +250,10 @@ func c05Extract(t reflect.Type, path []int, promote bool) []c05Field {
 			}
 			continue
 		}
-		if fd.Anon {
+		if fd.Anon && fd.Type.Kind() == reflect.Struct {
 			out = append(out, c05Extract(fd.Type, p, promote)...)
 		} else {
+			// also an embedded field of any other type (type MyInt int, *Inner): an ordinary field named after its type
 			out = append(out, fd)
 		}
 	}
@@ -1220,6 +1221,12 @@ func (w *c05Walker) structVal(v reflect.Value, consume bool, recName string, isR
 
 func (w *c05Walker) structValWith(v reflect.Value, consume bool, recName string, isRecord bool, fields []c05Field) string {
 	t := v.Type()
+	for _, f := range fields {
+		if f.Anon {
+			w.feats["embedded-non-struct"]++ // kept in the list only when its type is not a struct
+			break
+		}
+	}
 	terms := map[string]string{}
 	names := map[string]bool{}
 	if isRecord {
@@ -1413,6 +1420,10 @@ func c05NameKey(name string) string {
 	return strings.ReplaceAll(c05Snake(strings.TrimSpace(name)), "_", "")
 }
 
+var c05EmbeddableTypes = []reflect.Type{reflect.TypeOf(C05MyInt(0)), reflect.TypeOf(C05MyText("")), reflect.TypeOf(C05MyBytes{}), reflect.TypeOf(C05MyFloat(0)),
+	reflect.TypeOf(C05MyFlag(false)), reflect.TypeOf(C05MyList{}), reflect.TypeOf(C05MyNums{}), reflect.TypeOf((*C05MyAny)(nil)).Elem(),
+	reflect.TypeOf(C05MyArr{}), reflect.TypeOf(&C05MyInner{}), reflect.TypeOf(new(C05MyInt))}
+
 func (g *c05Gen) structType(depth int) reflect.Type {
 	levels := 0 // levels of embedded structs below this one
 	if g.rng.Intn(5) < 2 {
@@ -1487,6 +1498,23 @@ func (g *c05Gen) structTree(depth, levels int, used map[string]bool) reflect.Typ
 			f.Tag = reflect.StructTag(`ce:"` + strings.Join(parts, ",") + `"`)
 		}
 		fields[i] = f
+	}
+	// embedded fields that are not structs: ordinary fields named after their type
+	for k := g.rng.Intn(8); k < 2; k++ {
+		nt := c05EmbeddableTypes[g.rng.Intn(len(c05EmbeddableTypes))]
+		name := nt.Name()
+		if nt.Kind() == reflect.Ptr {
+			name = nt.Elem().Name()
+		}
+		if used[c05NameKey(name)] {
+			continue
+		}
+		used[c05NameKey(name)] = true
+		f := reflect.StructField{Name: name, Type: nt, Anonymous: true}
+		if g.rng.Intn(3) == 0 {
+			f.Tag = reflect.StructTag(`ce:"` + []string{"omit_empty", "omit_zero", "omit_never", "order=-7", "omit"}[g.rng.Intn(5)] + `"`)
+		}
+		embedded = append(embedded, f)
 	}
 	for _, e := range embedded {
 		at := g.rng.Intn(len(fields) + 1)
@@ -2052,6 +2080,15 @@ func c05Exec(root interface{}, kc *c05Cfg) *c05Run {
 			w.problem("structure", "events after the end of the document")
 		}
 	}
+	// the iterators of a type are built before any value is seen: the shape counts also where no value of it occurs
+	seenT := map[reflect.Type]bool{}
+	hasENS := root != nil && c05HasEmbeddedNonStruct(reflect.TypeOf(root), seenT)
+	for _, t := range kc.RecTypes {
+		hasENS = hasENS || c05HasEmbeddedNonStruct(t, seenT)
+	}
+	if hasENS {
+		w.feats["embedded-non-struct"]++
+	}
 	r.Problems, r.Feats, r.DupAt = w.problems, w.feats, w.dupAt
 	if root != nil && kc.Recursion {
 		r.DupDiff = c05DupsDiffer(root, w.addrs)
@@ -2091,6 +2128,31 @@ func (r *c05Run) cause() string {
 		return "map-key-collision"
 	}
 	return "other"
+}
+
+// does the type (statically) hold a struct with an embedded field that is not a struct?
+func c05HasEmbeddedNonStruct(t reflect.Type, seen map[reflect.Type]bool) bool {
+	if seen[t] || c05Special(t) {
+		return false
+	}
+	seen[t] = true
+	switch t.Kind() {
+	case reflect.Ptr, reflect.Slice, reflect.Array:
+		return c05HasEmbeddedNonStruct(t.Elem(), seen)
+	case reflect.Map:
+		return c05HasEmbeddedNonStruct(t.Key(), seen) || c05HasEmbeddedNonStruct(t.Elem(), seen)
+	case reflect.Struct:
+		for i := 0; i < t.NumField(); i++ {
+			fd := c05ParseField(t.Field(i), nil)
+			if !fd.extractable() {
+				continue
+			}
+			if (fd.Anon && fd.Type.Kind() != reflect.Struct) || c05HasEmbeddedNonStruct(fd.Type, seen) {
+				return true
+			}
+		}
+	}
+	return false
 }
 
 // the declaration of one record type at the head of the document
@@ -2141,6 +2203,10 @@ func (r *c05Run) verdicts(unsupported bool) []c05Verdict {
 		key := "C05/panic/other"
 		if strings.Contains(r.Panic, "reflect.Value.Pointer on array") {
 			key = "C05/panic/array-with-recursion-support"
+		} else if r.Feats["embedded-non-struct"] > 0 && strings.Contains(r.Panic, "non-struct") {
+			// repaired (extractFields flattens only embedded structs): a struct with an embedded named non-struct type or
+			// an embedded pointer used to panic in reflect's NumField (the class of C21/embedded-non-struct, -pointer-to-struct)
+			key = "C05/panic/embedded-non-struct"
 		}
 		out = append(out, c05Verdict{key, "iterate", "events", "panic: " + r.Panic})
 		return out
@@ -2482,6 +2548,7 @@ func c05Zoo() []c05ZooEntry {
 	})
 	e.NeedsRec = true
 	c05ZooEmbedding(add)
+	c05ZooEmbeddedNonStruct(add)
 	c05ZooClashes(add)
 	c05ZooAliases(add)
 	// media types: the validator checks the form type/subtype (/repo afaa1e5); a types.Media with a malformed
@@ -2741,6 +2808,159 @@ func c05ZooEmbedding(add func(name string, b func() interface{}) *c05ZooEntry) {
 		e.Records = map[string]interface{}{"o": reflect.Zero(t).Interface()}
 		e.Few = true
 	}
+}
+
+// ---------------------------------------------------------------------------
+// zoo family: embedded fields that are not structs (a named non-struct type, a pointer to a struct): only an embedded
+// STRUCT is flattened; these are ordinary fields named after their type, with tags, name style and omit rules as usual
+
+type C05MyInt int
+type C05MyText string
+type C05MyBytes []byte
+type C05MyFloat float64
+type C05MyFlag bool
+type C05MyMap map[string]int
+type C05MyList []string
+type C05MyNums []int16
+type C05MyAny interface{}
+type C05MyArr [2]uint8
+type C05MyInner struct{ A int }
+type c05mylow int
+
+type C05E1 struct { // the witness of C21/embedded-non-struct
+	C05MyInt
+	B int
+}
+type C05E2 struct { // the witness of C21/embedded-pointer-to-struct
+	*C05MyInner
+	B int
+}
+type C05E3 struct {
+	A0         int
+	C05MyText  `ce:"name=txt"`
+	C05MyBytes `ce:"omit_empty"`
+	C05MyFloat `ce:"order=-1"`
+	C05MyFlag  `ce:"omit_zero"`
+	C05MyMap   `ce:"omit_never"`
+	C05MyList
+	C05MyNums
+	C05MyAny
+	C05MyArr
+	*C05MyInt
+	C05Gone `ce:"omit"`
+	c05mylow
+	Z0 string
+}
+type C05E4 struct { // at depth: embedded structs (flattened) that hold embedded non-structs
+	C05E1
+	Mid int
+	*C05E2
+}
+type C05E5 struct {
+	Top string
+	C05E4
+	*C05MyText `ce:"omit_never"`
+}
+
+// a chain of depth embedded structs whose innermost struct embeds named non-struct types and a pointer to a struct;
+// byPointer: every second level embeds the level below through a pointer (not flattened: a nested map) instead of by value
+func c05EmbNonStructChain(depth int, byPointer bool) reflect.Type {
+	intT := reflect.TypeOf(int(0))
+	t := reflect.StructOf([]reflect.StructField{
+		{Name: "C05MyInt", Type: reflect.TypeOf(C05MyInt(0)), Anonymous: true},
+		{Name: "CoreB", Type: intT},
+		{Name: "C05MyInner", Type: reflect.TypeOf(&C05MyInner{}), Anonymous: true, Tag: `ce:"omit_never"`},
+		{Name: "C05MyText", Type: reflect.TypeOf(C05MyText("")), Anonymous: true, Tag: `ce:"order=-1,name=first"`},
+		{Name: "C05MyNums", Type: reflect.TypeOf(C05MyNums{}), Anonymous: true},
+	})
+	for lvl := 1; lvl <= depth; lvl++ {
+		e := reflect.StructField{Name: fmt.Sprintf("Emb%d", lvl), Type: t, Anonymous: true}
+		if byPointer && lvl%2 == 0 {
+			e.Type = reflect.PtrTo(t)
+		}
+		fs := []reflect.StructField{{Name: fmt.Sprintf("Lvl%dA", lvl), Type: intT}, e}
+		if lvl%2 == 1 {
+			fs[0], fs[1] = fs[1], fs[0]
+		}
+		t = reflect.StructOf(fs)
+	}
+	return t
+}
+
+// every settable thing below v gets a value: pointers and maps are made, interfaces get a string
+func c05FillAll(v reflect.Value, ctr *int64) {
+	switch v.Kind() {
+	case reflect.Ptr:
+		if v.CanSet() {
+			n := reflect.New(v.Type().Elem())
+			c05FillAll(n.Elem(), ctr)
+			v.Set(n)
+		}
+	case reflect.Map:
+		if v.CanSet() && v.Type().Key().Kind() == reflect.String {
+			m := reflect.MakeMap(v.Type())
+			e := reflect.New(v.Type().Elem()).Elem()
+			c05FillAll(e, ctr)
+			m.SetMapIndex(reflect.ValueOf("k").Convert(v.Type().Key()), e)
+			v.Set(m)
+		}
+	case reflect.Interface:
+		if v.CanSet() && v.NumMethod() == 0 {
+			*ctr++
+			v.Set(reflect.ValueOf(fmt.Sprintf("any%d", *ctr)))
+		}
+	case reflect.Struct:
+		if c05Special(v.Type()) {
+			return
+		}
+		for i := 0; i < v.NumField(); i++ {
+			if v.Field(i).CanSet() {
+				c05FillAll(v.Field(i), ctr)
+			}
+		}
+	default:
+		c05FillDistinct(v, ctr)
+	}
+}
+
+func c05ZooEmbeddedNonStruct(add func(name string, b func() interface{}) *c05ZooEntry) {
+	typed := func(name string, t reflect.Type, full bool, few bool) {
+		e := add(name, func() interface{} {
+			v := reflect.New(t).Elem()
+			var ctr int64 = 20
+			if full {
+				c05FillAll(v, &ctr)
+			} else {
+				c05FillDistinct(v, &ctr) // pointers stay nil, maps and interfaces too
+			}
+			return v.Interface()
+		})
+		e.Records = map[string]interface{}{"o": reflect.Zero(t).Interface()}
+		e.Few = few
+	}
+	for i, v := range []interface{}{C05E1{}, C05E2{}, C05E3{}, C05E4{}, C05E5{}} {
+		typed(fmt.Sprintf("embedded-non-struct-named-%d", i+1), reflect.TypeOf(v), true, false)
+		typed(fmt.Sprintf("embedded-non-struct-named-%d-nil", i+1), reflect.TypeOf(v), false, false)
+	}
+	add("embedded-non-struct-zero", func() interface{} { return []interface{}{C05E1{}, C05E2{}, C05E3{}, &C05E5{}} })
+	for depth := 0; depth <= 4; depth++ {
+		for _, byPointer := range []bool{false, true} {
+			if byPointer && depth < 2 {
+				continue
+			}
+			name := fmt.Sprintf("embedded-non-struct-chain-d%d", depth)
+			if byPointer {
+				name += "-by-pointer"
+			}
+			typed(name, c05EmbNonStructChain(depth, byPointer), true, true)
+			typed(name+"-nil", c05EmbNonStructChain(depth, byPointer), false, true)
+		}
+	}
+	e := add("embedded-non-struct-shared-pointer", func() interface{} { // the embedded pointer is a pointer like any other
+		in := &C05MyInner{A: 4}
+		return []interface{}{C05E2{in, 1}, &C05E2{in, 2}, in}
+	})
+	e.Records = map[string]interface{}{"e": C05E2{}, "i": C05MyInner{}}
 }
 
 // ---------------------------------------------------------------------------
@@ -3233,7 +3453,7 @@ func c05Random(sub int64, defect bool) (root interface{}, kc *c05Cfg, interior b
 }
 
 func runC05(c *Ctx) {
-	c.Rep.Rule = "random values of random types (reflect.StructOf structs with ce tags, slices, arrays, maps, pointers with sharing, interfaces, typed arrays, bool slices, library types, Node, Edge), depth <= 3, each with a random iterator configuration (field-name style, default omit behaviour, record types chosen among the struct types of the value, recursion support 1/3 with cycles); one third of the random cases may contain shapes of the open defect classes (edges, signalling float32 NaNs, embedded structs whose field names are chosen without regard to the names above them); two random struct types in five embed structs 1-6 levels deep (one or two embedded structs per level, at any position, flattened field names kept distinct); with recursion support two cases in three (one in four without) reuse finished pointers / slices / maps and point into the middle of finished objects (address of a struct field, of the first element of an array or slice: same address as the enclosing object, another type); plus a zoo of hand-written values (bool slices of every length around byte boundaries, edges, records, omit tags on every kind, shared pointers, cycles, slices sharing a base; embedded structs: chains of every depth 0-6 with the embedded struct first / in the middle / last and 1-3 innermost fields of equal or mixed types, binary trees of embeddings of depth 1-4, named chains, all as maps and as records; flattened fields that go by one name (an outer field shadowing an embedded struct's field at embedding depth 1-5, a `name=` tag repeating one, names that fall together in snake case only, two levels using one name, two embedded siblings with a field X) and exported fields promoted through an embedded struct whose type name is lower-case (first / middle / last, below an exported embedding, with an exported embedding below it, tagged, omitted as a control) - both open findings; objects of different types at one address under recursion support: every pair out of struct / first field / first field of that / its first int, pointer to array / slice of it / first element, slice / first element, zero-size objects, in three orders of occurrence, in lists, typed fields and maps; media types of every allowed character class, and malformed ones whose events the validator has to refuse; times of every type and time-zone form, and compact times that Validate rejects - month 13 / 0, day 30 of February / 0, year 0, hour 24, minute 60, second 61, nanosecond 10^9, latitude / longitude / offset out of range, empty area - whose events the validator has to refuse) under 2-5 configurations each; a case is trivial when the document is only nil, a bool or an integer; distinct = distinct (label, configuration, event stream)"
+	c.Rep.Rule = "random values of random types (reflect.StructOf structs with ce tags, slices, arrays, maps, pointers with sharing, interfaces, typed arrays, bool slices, library types, Node, Edge), depth <= 3, each with a random iterator configuration (field-name style, default omit behaviour, record types chosen among the struct types of the value, recursion support 1/3 with cycles); one third of the random cases may contain shapes of the open defect classes (edges, signalling float32 NaNs, embedded structs whose field names are chosen without regard to the names above them); one random struct type in four embeds one or two fields that are not structs (named int / string / []byte / float / bool / slice / interface / array types (not a map: reflect.StructOf cannot build that), pointer to a struct, pointer to a named int: ordinary fields named after their type, with tags); two random struct types in five embed structs 1-6 levels deep (one or two embedded structs per level, at any position, flattened field names kept distinct); with recursion support two cases in three (one in four without) reuse finished pointers / slices / maps and point into the middle of finished objects (address of a struct field, of the first element of an array or slice: same address as the enclosing object, another type); plus a zoo of hand-written values (bool slices of every length around byte boundaries, edges, records, omit tags on every kind, shared pointers, cycles, slices sharing a base; embedded structs: chains of every depth 0-6 with the embedded struct first / in the middle / last and 1-3 innermost fields of equal or mixed types, binary trees of embeddings of depth 1-4, named chains, all as maps and as records; embedded fields that are not structs (the former panics of extractFields: a named int, a pointer to a struct nil and non-nil, named string / bytes / float / bool / map / list / typed slice / interface / array, pointer to a named int, an unexported one, with name / omit / order tags, below 0-4 levels of embedded structs, the level below embedded through a pointer); flattened fields that go by one name (an outer field shadowing an embedded struct's field at embedding depth 1-5, a `name=` tag repeating one, names that fall together in snake case only, two levels using one name, two embedded siblings with a field X) and exported fields promoted through an embedded struct whose type name is lower-case (first / middle / last, below an exported embedding, with an exported embedding below it, tagged, omitted as a control) - both open findings; objects of different types at one address under recursion support: every pair out of struct / first field / first field of that / its first int, pointer to array / slice of it / first element, slice / first element, zero-size objects, in three orders of occurrence, in lists, typed fields and maps; media types of every allowed character class, and malformed ones whose events the validator has to refuse; times of every type and time-zone form, and compact times that Validate rejects - month 13 / 0, day 30 of February / 0, year 0, hour 24, minute 60, second 61, nanosecond 10^9, latitude / longitude / offset out of range, empty area - whose events the validator has to refuse) under 2-5 configurations each; a case is trivial when the document is only nil, a bool or an integer; distinct = distinct (label, configuration, event stream)"
 	cf := c.Cases("iterate", "CE.Model.Iterate", "iterate_case", "iterate_case_ok")
 	cf.perFile = 100
 
